@@ -34,7 +34,7 @@ def mon_names(model):
 def run(ctx):
     ctx.assumptions += [
         "each hook-named critical section / channel operation of consumergroup.go is atomic (guarded by g.lock or a single channel op)",
-        "the coordinator answers every call eventually (the real Conn enforces deadlines); timer ticks are environment events",
+        "in the LTS every coordinator call returns eventually — on the real path that is the deadline timeoutCoordinator sets before each call (Model/GroupDeadlines.lean, deadlines_match_source, observation `deadlines` against a wire-level coordinator that holds or withholds answers); timer ticks are environment events",
         "functions given to Start return after their context is cancelled (stated in Start's contract)",
         "only accounted functions are waited for (D8: a function Start-ed after the generation ended is launched unaccounted)",
         "one Next caller at a time in the sampled traces (the model allows several)",
